@@ -12,6 +12,7 @@ import (
 	"strings"
 	"sync/atomic"
 	"time"
+	"unicode/utf8"
 
 	cdc "github.com/craterdog/go-collection-framework/v4/cdcn"
 	col "github.com/craterdog/go-collection-framework/v4/collection"
@@ -745,5 +746,113 @@ func RunReusedNotation(c *core.Ctx, prop string) {
 	c.Distinct(core.HashStr(strings.Join(hist, "|")))
 	if c.WantSample("reused-notation") {
 		c.Sample("reused-notation", map[string]any{"documents_on_one_notation": hist})
+	}
+}
+
+// RunC11M1: the schedules of scanner and parser for one derived sentence are
+// explored depth-first under the controlled scheduler (at most two
+// preemptions, budgeted); every schedule must end (no goroutine left parked:
+// that includes the scanner) with the denotation of the sentence.
+// onlyMalformed (C12) draws malformed documents only and classifies every
+// outcome against the statement of C12 as well.
+func RunC11M1(c *core.Ctx, onlyMalformed bool, explore func(src string, budget, maxPreempt int, check func(value any, pan any) string) (int, string, []string)) {
+	r := c.Rng
+	d := &deriver{r: r}
+	src, want := d.collection(r.Intn(2), 0)
+	if r.Chance(1, 3) {
+		// documents longer than the 16-token queue
+		var parts []string
+		n := r.Range(9, 30)
+		for i := 0; i < n; i++ {
+			parts = append(parts, strconv.Itoa(i%7))
+		}
+		src = "[" + strings.Join(parts, ", ") + "](List)"
+		cs := make([]string, n)
+		for i := range cs {
+			cs[i] = fmt.Sprintf("i64:%d", i%7)
+		}
+		want = "List[" + strings.Join(cs, " ") + "]"
+	}
+	budget := core.Tiered(c.Tier, 150, 3000)
+	malformed := r.Chance(1, 4) || onlyMalformed
+	if malformed {
+		// a malformed document with a long tail behind the first error: the
+		// parser gives up while the scanner still has tokens to deliver
+		cut := r.Intn(len(src) + 1)
+		for cut > 0 && cut < len(src) && !utf8.RuneStart(src[cut]) {
+			cut--
+		}
+		junk := []string{"]", ")", ":", ",", "[[", "$", "(Nope)", "\"open"}[r.Intn(8)]
+		var tail []string
+		for i, n := 0, r.Range(0, 24); i < n; i++ {
+			tail = append(tail, []string{"1", ",", ":", "[", "]", "true", "\"s\"", "(List)"}[r.Intn(8)])
+		}
+		src = src[:cut] + junk + " " + strings.Join(tail, " ") + src[cut:]
+	}
+	var first *string
+	n, verdict, trace := explore(src, budget, 2, func(value any, pan any) string {
+		if malformed {
+			if onlyMalformed {
+				o := Outcome{Value: value, Panicked: pan != nil, Payload: pan, Text: fmt.Sprint(pan)}
+				if sig, msg := ClassifyOutcome(src, o); sig != "" {
+					return "[" + sig + "] " + msg
+				}
+			}
+			// whatever the outcome is, it is the same on every schedule
+			var out string
+			if pan != nil {
+				out = "panic: " + fmt.Sprint(pan)
+			} else {
+				out, _ = Canon(value)
+				out = "value: " + out
+			}
+			if first == nil {
+				first = &out
+			} else if *first != out {
+				return "the outcome of parsing a malformed document depends on the schedule: " + clip(*first, 200) + "  versus  " + clip(out, 200)
+			}
+			return ""
+		}
+		if pan != nil {
+			if want == "" {
+				return ""
+			}
+			return "a sentence of the grammar was rejected on this schedule: " + clip(fmt.Sprint(pan), 160)
+		}
+		if want == "" {
+			return "a literal without exact representation was accepted"
+		}
+		if got, _ := Canon(value); got != want {
+			return "the parsed collection differs from the denotation on this schedule: " + clip(got, 300)
+		}
+		return ""
+	})
+	cs := map[string]any{"sentence": clip(src, 600), "schedules_explored": n, "schedule": trace}
+	switch {
+	case strings.HasPrefix(verdict, "inconclusive"):
+		c.Inconclusive("M1 (scanner/parser): " + verdict)
+		return
+	case strings.HasPrefix(verdict, "deadlock"):
+		c.Violation("grammar/m1/goroutine-left-blocked", "scanner and parser reached a state in which a goroutine is unfinished and nobody can proceed: "+verdict, cs)
+		return
+	case strings.HasPrefix(verdict, "[") && strings.Contains(verdict, "] "):
+		c.Violation("m1/"+verdict[1:strings.Index(verdict, "] ")], verdict[strings.Index(verdict, "] ")+2:], cs)
+		return
+	case verdict != "":
+		c.Violation("grammar/m1/schedule-dependent", verdict, cs)
+		return
+	}
+	c.CoverN("m1.scanner-parser-schedules", n)
+	if malformed {
+		c.Cover("m1.malformed-documents")
+		if first != nil && strings.HasPrefix(*first, "panic") {
+			c.Cover("m1.malformed-documents.rejected")
+		}
+	} else {
+		c.Cover("m1.sentences")
+	}
+	c.Distinct(core.HashStr("m1" + src))
+	if c.WantSample("m1-parse") {
+		c.Sample("m1-parse", map[string]any{"sentence": clip(src, 200), "schedules_explored": n})
 	}
 }
